@@ -19,7 +19,7 @@
   usage:  avt-harness ptable 2 | lake env lean --run Avt/Driver/PTable.lean
 -/
 import Avt.Spec.C03
-import Avt.Lemmas.ParserTable
+import Avt.Lemmas.ParserReps
 
 namespace Avt.PTable
 open Avt Avt.Spec.C03
